@@ -34,6 +34,8 @@ def setup(length_stub=True, stub_lxml=True):
     if length_stub:
         chkit.install_length_stub()
     chkit.install_packuri_stub()
+    if stub_lxml:
+        chkit.install_parse_hook()
 
 
 def cond(expect="confirm", tiers=("quick", "thorough"), timeout=60, twin_of=None, note="",
